@@ -247,7 +247,7 @@ theorem minv_step {K V : Type} [DecidableEq K] (f : K → V) (key : Nat → K) (
     refine ⟨hm, ?_⟩
     intro x
     by_cases hx : x = t
-    · subst hx; simp only [upd_same, MOk]; exact ⟨ht, rfl⟩
+    · subst hx; simp only [upd_same, MOk, and_true]; exact ht
     · simp only [upd_other _ _ _ _ hx]; exact hp x
   · rename_i k v hpc
     rw [hpc] at ht
